@@ -715,6 +715,32 @@ def _pre_pack_view(rr):
     return v
 
 
+# ---------------------------------------------------------------- steps that may block
+BLOCKED = object()
+STEP_TIMEOUT = 6
+
+
+def call_with_timeout(fn, timeout):
+    """run fn() in a daemon thread; BLOCKED if it has not returned after `timeout` seconds (the thread is
+    abandoned), else its result (exceptions are re-raised here)"""
+    import threading
+    box = {}
+
+    def body():
+        try:
+            box['r'] = fn()
+        except BaseException as e:
+            box['e'] = e
+    th = threading.Thread(target=body, daemon=True)
+    th.start()
+    th.join(timeout)
+    if th.is_alive():
+        return BLOCKED
+    if 'e' in box:
+        raise box['e']
+    return box['r']
+
+
 # ---------------------------------------------------------------- part B: read-only sessions
 READ_APIS = ['load', 'loadBefore', 'loadSerial', 'history', 'iterator', 'lastTransaction', 'getTid', 'getSize',
              'undoLog', 'lastInvalidations', 'record_iternext', 'isReadOnly', 'len', 'supportsUndo']
@@ -970,8 +996,22 @@ def ro_session(ck, spec):
         names = list(spec['calls'])
         if not names or names[-1] != 'close':
             names.append('close')
+        if not spec.get('exact_calls'):
+            # every session ends with refused writes IN A ROW (a refusal must not leave a lock behind)
+            names = names[:-1] + ['tpc_begin', 'store', 'tpc_begin', 'new_oid', 'close']
+        blocked = False
         for name in names:
-            out = call_api(ro, name, oids, tids, rng)
+            out = call_with_timeout(lambda: call_api(ro, name, oids, tids, rng), STEP_TIMEOUT)
+            if out is BLOCKED:
+                # the step did not come back: a verdict with this session as failing input, not a hang
+                calls.append(name)
+                prev_refused = [c for c in calls[:-1] if c in REFUSALS]
+                sig = 'C09:ro-second-write-blocks' if (name in REFUSALS and prev_refused) else 'C09:step-blocked'
+                viol.append((sig, 'read-only instance (%s): %s did not return within %d s%s' % (
+                    mode, name, STEP_TIMEOUT, ' after the refused %s (a refusal left a lock behind)' % prev_refused[-1]
+                    if prev_refused else ''), dict(spec, calls=calls[:], exact_calls=True)))
+                blocked = True
+                break
             calls.append(name)
             outs.append(out)
             ck.count('api:' + name)
